@@ -49,7 +49,8 @@ VALUES_BY_TYPE = {
     "int": st.integers(-1000, 100000),
     "float": st.sampled_from((0.5, 2.0, 1e-07, -0.25, 0.001, 3.14, 100.0, 0.0, 1e10, -1.5e-05)),
     "bool": st.booleans(),
-    "str": st.sampled_from(domain.STR_WORDS + ("two words", "a b c", "a.b", "~/tensorflow_datasets", "model.h5")),
+    "str": st.sampled_from(domain.STR_WORDS + ("two words", "a b c", "a.b", "~/tensorflow_datasets", "model.h5",
+                                               "it's", "it's v2.x only", "don't. stop", "`tick` it")),
 }
 
 
@@ -77,7 +78,7 @@ def positive(draw, knob=None):
     elif knob == "empty_str":
         value, typ = "", "str"
     elif knob == "str_with_quote":
-        value, typ = draw(st.sampled_from(("it's", 'say "hi"'))), "str"
+        value, typ = draw(st.sampled_from(('say "hi"', 'a "b.c" d', 'it\'s "so"'))), "str"
     elif knob == "code_dot":
         value = domain.code(draw(st.sampled_from(domain.CODE_DOT)))
     elif knob == "bracket_code":
@@ -182,8 +183,10 @@ def case_tags(case):
             t.add("str_with_dot")
         if v == "":
             t.add("empty_str")
-        if "'" in v or '"' in v:
-            t.add("str_with_quote")
+        if '"' in v:
+            t.add("str_with_quote")  # the quote character the renderer itself uses (finding KF-P03)
+        if "'" in v:
+            t.add("str_with_squote")
         if " " in v:
             t.add("str_with_space")
     if case["trailing"]:
